@@ -366,7 +366,7 @@ class Parser:
                     self.next()
                     self.next()
             elif self.accept_kw("COLLATE"):
-                self.ident()
+                c["collate"] = self.ident().upper()
             else:
                 break
         return c
@@ -1058,6 +1058,18 @@ class Exec:
                         return row[k]
         raise OperationalError("no such column: %s%s" % (tname + "." if tname else "", cname))
 
+    def nocase(self, node, scopes):
+        """is this expression a column declared COLLATE NOCASE?"""
+        if node[0] != "col":
+            return False
+        for alias, table, row in reversed(scopes):
+            if table is None or (node[1] is not None and node[1] != alias and node[1] != table.name):
+                continue
+            for cd in table.cols:
+                if cd["name"] == node[2]:
+                    return cd.get("collate") == "NOCASE"
+        return False
+
     def ev(self, e, scopes):
         k = e[0]
         if k == "const":
@@ -1068,6 +1080,8 @@ class Exec:
             return self.col(scopes, e[1], e[2])
         if k == "cmp":
             l, r = self.ev(e[2], scopes), self.ev(e[3], scopes)
+            if type(l) is str and type(r) is str and self.nocase(e[2], scopes) or type(l) is str and type(r) is str and self.nocase(e[3], scopes):
+                l, r = l.lower(), r.lower()
             res = cmp_values(e[1], l, r)
             if e[1] in ("<", "<=", ">", ">=") and {e[2][0], e[3][0]} == {"param", "col"}:
                 p_ = l if e[2][0] == "param" else r
@@ -1319,7 +1333,12 @@ class Exec:
                 for other in t.rows:
                     if other is skip:
                         continue
-                    if truth(cmp_values("=", other[c["name"]], v)):
+                    a_, b_ = other[c["name"]], v
+                    if c.get("collate") == "NOCASE" and type(a_) is str and type(b_) is str:
+                        a_, b_ = a_.lower(), b_.lower()  # ASCII case folding of the NOCASE collation (approximated by lower())
+                    elif c.get("collate") not in (None, "BINARY", "NOCASE"):
+                        raise Unsupported("collation %s" % c.get("collate"))
+                    if truth(cmp_values("=", a_, b_)):
                         raise IntegrityError("UNIQUE constraint failed: %s.%s" % (t.name, c["name"]))
 
     def new_rowid(self, t):
